@@ -9,16 +9,23 @@ package migration
 // by a recording evictor interpreter. Every recorded effect is stamped with the reservation and
 // pod state read from the API at that instant.
 //
-// input  : direct paused ttl pvalid initphase rref0 createdBy nops, then nops records of 11 ints
-//          kind a1..a10:
+// input  : direct paused ttl pvalid initphase rref0 createdBy tmpl nops, then nops records of 12 ints
+//          tmpl = user-supplied Spec.ReservationOptions.Template: 0 none; else o*4 + a with
+//                 a = 1 AllocateOnce nil, 2 true, 3 false; o = 0 no Owners, 1 a controller owner, 2 an object owner
+//          kind a1..a11:
 //            0 Reconcile  a1 = fault mask (bit k set: the k-th API write of this reconcile fails)
-//            1 SetRes     exists label phase node sched expired owner bound needp pdone
+//            1 SetRes     exists label phase node sched expired owner bound needp pdone once(0 false 1 true 2 nil)
 //            2 SetPod     exists uid node sched ctrl
 //            3 SetBoundPod state(0 missing 1 not ready 2 ready)
 //            4 Tick       seconds
 //            5 Restart    (new Reconciler: empty assumed cache, freshly listed informer)
 //            6 Stale      a1 = k: the next Reconcile reads the job as it was k job-writes ago (lagging informer)
-// observable: per op   nEff, nEff x (kind ok + 10 stamp ints), 14 job ints, 3 reservation ints
+//            7 Sched      a1 = node: the scheduler schedules the pending Reservation (reservationutil.SetReservationAvailable)
+//            8 Alloc      a1 = uid: a pod is allocated from the available Reservation, the way the reservation
+//                         controller's syncStatus records it (CurrentOwners; Succeeded iff IsReservationAllocateOnce)
+// observable: per op   nEff, nEff x (kind ok + 10 stamp ints + phase), 14 job ints, 4 reservation ints
+//          effect kinds: 1 Evict, 2 CreateReservation, 3 DeleteReservation (stamped), 4 successful write of the
+//          job (Update / Status().Update; zero stamp, phase = the phase it persists)
 
 import (
 	"context"
@@ -44,6 +51,7 @@ import (
 	sev1alpha1 "github.com/koordinator-sh/koordinator/apis/scheduling/v1alpha1"
 	deschedulerconfig "github.com/koordinator-sh/koordinator/pkg/descheduler/apis/config"
 	"github.com/koordinator-sh/koordinator/pkg/descheduler/controllers/migration/reservation"
+	reservationutil "github.com/koordinator-sh/koordinator/pkg/util/reservation"
 )
 
 const (
@@ -54,7 +62,8 @@ const (
 	vtC17BP      = "bp"
 	vtC17AnnNeed = "verif/needp"
 	vtC17AnnDone = "verif/pdone"
-	vtC17Width   = 11
+	vtC17Width   = 12
+	vtC17Hdr     = 9
 )
 
 var (
@@ -170,6 +179,14 @@ type vtC17World struct {
 func (w *vtC17World) snapshot(obj client.Object) {
 	if job, ok := obj.(*sev1alpha1.PodMigrationJob); ok {
 		w.snaps = append(w.snaps, job.DeepCopy())
+		// a successful write of the job: what is persisted is read back from the API, not taken from the
+		// controller's in-memory object
+		cur := &sev1alpha1.PodMigrationJob{}
+		ph := int64(98)
+		if err := w.base.Get(context.TODO(), types.NamespacedName{Name: vtC17JobName}, cur); err == nil {
+			ph = vtC17Index(vtC17JobPhase, cur.Status.Phase)
+		}
+		w.record(4, true, make([]int64, 10), ph)
 	}
 }
 
@@ -237,20 +254,21 @@ func (w *vtC17World) stamp() []int64 {
 	return st
 }
 
-func (w *vtC17World) record(kind int64, ok bool, st []int64) {
+func (w *vtC17World) record(kind int64, ok bool, st []int64, ph int64) {
 	w.neff++
 	w.effects = append(w.effects, kind, vtB(ok))
 	w.effects = append(w.effects, st...)
+	w.effects = append(w.effects, ph)
 }
 
 // recording evictor interpreter
 func (w *vtC17World) Evict(ctx context.Context, job *sev1alpha1.PodMigrationJob, pod *corev1.Pod) error {
 	st := w.stamp()
 	if w.fail() {
-		w.record(1, false, st)
+		w.record(1, false, st, 0)
 		return fmt.Errorf("verif: injected eviction failure")
 	}
-	w.record(1, true, st)
+	w.record(1, true, st, 0)
 	return nil
 }
 
@@ -263,13 +281,13 @@ func (w *vtC17World) funcs() interceptor.Funcs {
 			st := w.stamp()
 			if w.fail() {
 				if isRes {
-					w.record(2, false, st)
+					w.record(2, false, st, 0)
 				}
 				return errVtC17
 			}
 			err := c.Create(ctx, obj, opts...)
 			if isRes {
-				w.record(2, err == nil, st)
+				w.record(2, err == nil, st, 0)
 			}
 			return err
 		},
@@ -278,13 +296,13 @@ func (w *vtC17World) funcs() interceptor.Funcs {
 			st := w.stamp()
 			if w.fail() {
 				if isRes {
-					w.record(3, false, st)
+					w.record(3, false, st, 0)
 				}
 				return errVtC17
 			}
 			err := c.Delete(ctx, obj, opts...)
 			if isRes {
-				w.record(3, err == nil, st)
+				w.record(3, err == nil, st, 0)
 			}
 			return err
 		},
@@ -364,6 +382,16 @@ func (w *vtC17World) setRes(a []int64) {
 	if a[9] != 0 {
 		r.Annotations[vtC17AnnDone] = "1"
 	}
+	switch a[10] {
+	case 0:
+		fa := false
+		r.Spec.AllocateOnce = &fa
+	case 1:
+		tr := true
+		r.Spec.AllocateOnce = &tr
+	default:
+		r.Spec.AllocateOnce = nil
+	}
 	r.Spec.Owners = nil
 	switch a[6] {
 	case 1:
@@ -403,6 +431,35 @@ func (w *vtC17World) setRes(a []int64) {
 		err = w.base.Update(ctx, r)
 	}
 	if err != nil {
+		panic(err)
+	}
+}
+
+// the scheduler's two status transitions on the Reservation object, in place
+func (w *vtC17World) sched(node int64) {
+	r := w.getRes()
+	if r == nil || node <= 0 || !(r.Status.Phase == "" || r.Status.Phase == sev1alpha1.ReservationPending) {
+		return
+	}
+	if err := reservationutil.SetReservationAvailable(r, vtC17Name("n", node)); err != nil {
+		panic(err)
+	}
+	if err := w.base.Update(context.TODO(), r); err != nil {
+		panic(err)
+	}
+}
+
+func (w *vtC17World) alloc(uid int64) {
+	r := w.getRes()
+	if r == nil || uid <= 0 || r.Status.Phase != sev1alpha1.ReservationAvailable {
+		return
+	}
+	// reservation controller, syncStatus: record the owners, and an allocate-once Reservation is consumed
+	r.Status.CurrentOwners = []corev1.ObjectReference{{Namespace: vtC17NS, Name: vtC17BP, UID: types.UID(vtC17Name("u", uid))}}
+	if extension.IsReservationAllocateOnce(r) {
+		reservationutil.SetReservationSucceeded(r)
+	}
+	if err := w.base.Update(context.TODO(), r); err != nil {
 		panic(err)
 	}
 }
@@ -497,10 +554,11 @@ func (w *vtC17World) summary() []int64 {
 		}
 		out = append(out, v)
 	}
-	// reservation as stored in the API: exists, has the order label, owner kind
-	env := []int64{0, 0, 0}
+	// reservation as stored in the API: exists, has the order label, owner kind, allocate-once
+	env := []int64{0, 0, 0, 0}
 	if r := w.getRes(); r != nil {
 		env[0] = 1
+		env[3] = vtB(extension.IsReservationAllocateOnce(r))
 		_, has := r.Labels[extension.LabelReservationOrder]
 		env[1] = vtB(has)
 		if len(r.Spec.Owners) > 0 {
@@ -520,7 +578,7 @@ func (w *vtC17World) summary() []int64 {
 
 func vtC17Exec(in []int64) []int64 {
 	vtC17Init()
-	direct, paused, ttl, pvalid, initphase, rref0, createdBy, nops := in[0], in[1], in[2], in[3], in[4], in[5], in[6], int(in[7])
+	direct, paused, ttl, pvalid, initphase, rref0, createdBy, tmpl, nops := in[0], in[1], in[2], in[3], in[4], in[5], in[6], in[7], int(in[8])
 	w := &vtC17World{}
 	w.base = fake.NewClientBuilder().WithScheme(vtC17Scheme).WithStatusSubresource(&sev1alpha1.PodMigrationJob{}).Build()
 	w.faulty = interceptor.NewClient(w.base, w.funcs())
@@ -547,6 +605,29 @@ func vtC17Exec(in []int64) []int64 {
 	if rref0 != 0 {
 		job.Spec.ReservationOptions = &sev1alpha1.PodMigrateReservationOptions{ReservationRef: &corev1.ObjectReference{Name: vtC17JobUID}}
 	}
+	if tmpl > 0 {
+		if job.Spec.ReservationOptions == nil {
+			job.Spec.ReservationOptions = &sev1alpha1.PodMigrateReservationOptions{}
+		}
+		t := &sev1alpha1.ReservationTemplateSpec{}
+		switch tmpl % 4 {
+		case 2:
+			tr := true
+			t.Spec.AllocateOnce = &tr
+		case 3:
+			fa := false
+			t.Spec.AllocateOnce = &fa
+		}
+		switch tmpl / 4 {
+		case 1:
+			tr := true
+			t.Spec.Owners = []sev1alpha1.ReservationOwner{{Controller: &sev1alpha1.ReservationControllerReference{
+				OwnerReference: metav1.OwnerReference{Kind: "ReplicaSet", Name: "rs", UID: "rsuid", Controller: &tr}, Namespace: vtC17NS}}}
+		case 2:
+			t.Spec.Owners = []sev1alpha1.ReservationOwner{{Object: &corev1.ObjectReference{Kind: "Pod", Namespace: vtC17NS, Name: vtC17Pod}}}
+		}
+		job.Spec.ReservationOptions.Template = t
+	}
 	if createdBy != 0 {
 		job.Annotations = map[string]string{AnnotationJobCreatedBy: "gen0"}
 	}
@@ -568,7 +649,7 @@ func vtC17Exec(in []int64) []int64 {
 	now := int64(0)
 	var obs []int64
 	for i := 0; i < nops; i++ {
-		op := in[8+vtC17Width*i : 8+vtC17Width*(i+1)]
+		op := in[vtC17Hdr+vtC17Width*i : vtC17Hdr+vtC17Width*(i+1)]
 		w.effects, w.neff = nil, 0
 		switch op[0] {
 		case 0:
@@ -590,6 +671,10 @@ func vtC17Exec(in []int64) []int64 {
 			w.snaps = w.snaps[len(w.snaps)-1:]
 		case 6:
 			w.lag = op[1]
+		case 7:
+			w.sched(op[1])
+		case 8:
+			w.alloc(op[1])
 		}
 		obs = append(obs, w.neff)
 		obs = append(obs, w.effects...)
@@ -614,6 +699,7 @@ type vtC17G struct {
 	podUID  int64
 	podNode int64
 	faulty  int // per-mille of reconciles with a fault mask
+	once    int64 // AllocateOnce of the reservations set by the environment: 0 false, 1 true, 2 nil
 }
 
 func (g *vtC17G) op(kind int64, a ...int64) {
@@ -644,9 +730,19 @@ func (g *vtC17G) reconcile() { g.op(0, g.mask()) }
 
 func (g *vtC17G) otherNode() int64 { return g.podNode%3 + 1 }
 
-// res: exists label phase node sched expired owner bound needp pdone
+// res: exists label phase node sched expired owner bound needp pdone once
 func (g *vtC17G) res(label, phase, node, sched, expired, owner, bound, needp, pdone int64) {
-	g.op(1, 1, label, phase, node, sched, expired, owner, bound, needp, pdone)
+	g.op(1, 1, label, phase, node, sched, expired, owner, bound, needp, pdone, g.once)
+}
+
+// the reservation the controller created gets scheduled: by the scheduler's in-place transition, or
+// (the older scripts) by replacing the object
+func (g *vtC17G) scheduled(node, owner int64) {
+	if g.r.Intn(2) == 0 {
+		g.op(7, node)
+	} else {
+		g.res(1, 2, node, 1, 0, owner, 0, 0, 0)
+	}
 }
 
 func (g *vtC17G) pod(uid, node, sched, ctrl int64) {
@@ -684,7 +780,12 @@ func (g *vtC17G) randomRes() {
 	if r.Intn(5) == 0 {
 		needp, pdone = int64(r.Intn(2)), int64(r.Intn(2))
 	}
+	save := g.once
+	if r.Intn(3) == 0 {
+		g.once = int64(r.Intn(3))
+	}
 	g.res(vtB(r.Intn(4) != 0), phase, node, sched, expired, owner, bound, needp, pdone)
+	g.once = save
 }
 
 func (g *vtC17G) randomPod() {
@@ -721,9 +822,13 @@ func (g *vtC17G) noise() {
 		g.randomPod()
 	case k < 82:
 		g.op(3, int64(g.r.Intn(3)))
-	case k < 90:
+	case k < 88:
 		g.op(4, int64(g.r.Intn(6)))
-	case k < 96:
+	case k < 91:
+		g.op(7, int64(g.r.Intn(4))) // scheduler: schedule the pending reservation (node 0: no-op)
+	case k < 94:
+		g.op(8, int64(g.r.Intn(4))) // scheduler: some pod is allocated from the reservation
+	case k < 97:
 		// a lagging informer read, usually served right away
 		g.op(6, int64(1+g.r.Intn(4)))
 		if g.r.Intn(4) != 0 {
@@ -735,8 +840,12 @@ func (g *vtC17G) noise() {
 }
 
 func vtC17Gen(r *rand.Rand, i int) (string, []int64) {
-	g := &vtC17G{r: r}
-	direct, paused, ttl, pvalid, rref0, createdBy := int64(0), int64(0), int64(0), int64(1), int64(0), int64(0)
+	g := &vtC17G{r: r, once: []int64{1, 1, 1, 2, 0}[r.Intn(5)]}
+	direct, paused, ttl, pvalid, rref0, createdBy, tmpl := int64(0), int64(0), int64(0), int64(1), int64(0), int64(0), int64(0)
+	if r.Intn(3) == 0 {
+		// a user-supplied reservation template: AllocateOnce nil / true / false, usually without Owners
+		tmpl = int64(1+r.Intn(3)) + 4*[]int64{0, 0, 0, 1, 2}[r.Intn(5)]
+	}
 	initphase := int64(r.Intn(2))
 	if r.Intn(40) == 0 {
 		paused = 1
@@ -769,12 +878,16 @@ func vtC17Gen(r *rand.Rand, i int) (string, []int64) {
 		label = "script:migrate"
 		step(func() { g.pod(uid, node, 2, ctrl) })
 		step(g.reconcile)
-		step(func() { g.res(1, 2, g.otherNode(), 1, 0, 1, 0, 0, 0) })
+		step(func() { g.scheduled(g.otherNode(), 1) })
 		step(g.reconcile)
 		step(g.reconcile)
 		step(func() { g.op(2, 0); g.podNode = 0 })
 		step(g.reconcile)
-		step(func() { g.res(1, 3, node%3+1, 1, 0, 1, bound, 0, 0) })
+		if r.Intn(2) == 0 {
+			step(func() { g.op(8, bound) })
+		} else {
+			step(func() { g.res(1, 3, node%3+1, 1, 0, 1, bound, 0, 0) })
+		}
 		step(func() { g.op(3, int64(r.Intn(3))) })
 		step(g.reconcile)
 		step(func() { g.op(3, 2) })
@@ -874,7 +987,36 @@ func vtC17Gen(r *rand.Rand, i int) (string, []int64) {
 		}
 		step(g.reconcile)
 		step(g.reconcile)
-	case family < 78: // a lagging informer serves an intermediate version of the job
+	case family < 73: // the scheduler hands the reservation to another pod before the controller evicts
+		label = "script:sibling"
+		step(func() { g.pod(uid, node, 2, ctrl) })
+		step(g.reconcile)
+		if r.Intn(4) == 0 {
+			step(g.reconcile) // still pending
+		}
+		step(func() { g.op(7, g.otherNode()) })
+		if r.Intn(3) == 0 {
+			step(g.reconcile) // evicts first; the sibling takes the reservation afterwards
+		}
+		step(func() { g.op(8, bound) })
+		step(g.reconcile)
+		step(g.reconcile)
+		if r.Intn(2) == 0 {
+			step(func() { g.op(2, 0); g.podNode = 0 })
+			step(g.reconcile)
+		}
+	case family < 78: // the pod is missing when the job is first looked at, and comes back
+		label = "script:latepod"
+		if r.Intn(3) != 0 {
+			direct = int64(r.Intn(2))
+		}
+		step(g.reconcile)
+		step(func() { g.pod(uid, node, 2, ctrl) })
+		step(g.reconcile)
+		step(func() { g.op(7, g.otherNode()) })
+		step(g.reconcile)
+		step(g.reconcile)
+	case family < 84: // a lagging informer serves an intermediate version of the job
 		label = "script:lag"
 		rref0 = int64(r.Intn(2))
 		if rref0 == 1 {
@@ -894,18 +1036,22 @@ func vtC17Gen(r *rand.Rand, i int) (string, []int64) {
 			step(g.reconcile)
 		}
 		step(g.reconcile)
-	case family < 86: // the eviction call fails, then the world changes
+	case family < 90: // the eviction call fails, then the world changes
 		label = "script:retry"
 		step(func() { g.pod(uid, node, 2, ctrl) })
 		step(g.reconcile)
-		step(func() { g.res(1, 2, g.otherNode(), 1, 0, 1, 0, 0, 0) })
+		step(func() { g.scheduled(g.otherNode(), 1) })
 		rn := g.otherNode()
 		g.op(0, int64(4)<<uint(r.Intn(2))) // third or fourth write fails (the eviction call)
 		switch r.Intn(4) {
 		case 0: // pod replaced, maybe onto the reservation's node
 			step(func() { g.pod(uid%3+1, []int64{rn, node, g.otherNode()}[r.Intn(3)], 2, ctrl) })
 		case 1: // reservation consumed meanwhile
-			step(func() { g.res(1, 3, rn, 1, 0, 1, bound, 0, 0) })
+			if r.Intn(2) == 0 {
+				step(func() { g.op(8, bound) })
+			} else {
+				step(func() { g.res(1, 3, rn, 1, 0, 1, bound, 0, 0) })
+			}
 		case 2: // reservation expired meanwhile
 			step(func() { g.res(1, 5, rn, 1, 1, 1, 0, 0, 0) })
 		default:
@@ -934,7 +1080,7 @@ func vtC17Gen(r *rand.Rand, i int) (string, []int64) {
 	if g.faulty == 0 && label != "random" && !vtC17HasMask(g.in) {
 		label += ":nofault"
 	}
-	hdr := []int64{direct, paused, ttl, pvalid, initphase, rref0, createdBy, int64(g.n)}
+	hdr := []int64{direct, paused, ttl, pvalid, initphase, rref0, createdBy, tmpl, int64(g.n)}
 	return label, append(hdr, g.in...)
 }
 
